@@ -97,6 +97,15 @@ def check_case(inputs, cmps, job, registry, check_types, fold_guard=False):
     shared = job["layout"] == "nested" and not common.is_tree(reg)
     if shared and not job.get("sharedOk"):
         return None, "nested-non-tree"
+    import ast as _ast
+    tree = _ast.parse(text)
+    imported = set()
+    for node in tree.body:
+        if isinstance(node, (_ast.Import, _ast.ImportFrom)):
+            imported.update((a.asname or a.name).split(".")[0] for a in node.names)
+    clash = sorted({n.name for n in _ast.walk(tree) if isinstance(n, _ast.ClassDef)} & imported)
+    if clash:
+        return {"kind": "class-shadows-import", "observed": f"classes {clash} carry names the module imports"}, None
     ns = real.load_module(text)
     classes = {c.__name__: (c, chain) for q, c, chain in real.collect_classes(ns)}
     fw = job["fw"]
@@ -169,6 +178,7 @@ def correspondence(ctx, batch):
 def run_falsifier(ctx, check_types):
     rng = ctx.rng("fals")
     registry = stages.make_registry()
+    registry_dt = stages.make_registry(datetime=True)
     focus = common.focus_cases(ctx)
     n = ctx.n(300, 8000)
     for i in range(len(focus) + n):
@@ -208,8 +218,18 @@ def run_falsifier(ctx, check_types):
             k1, k2 = rng.choice(["PK", "Pk", "pk.", "p-k", "pK"]), rng.choice(["ID", "Id", "id-", "i.d", "iD"])
             inputs = [("Root", [{k1: 7, "name": "x", "sub": {k2: 3, "v": 1.5}}, {k1: 8, "name": "y", "sub": {k2: 4, "v": 2.5}}])]
             job["fw"] = rng.choice(["sqlmodel", "sqlmodel", "pydantic"])
+        reg_i = registry
+        if i >= len(focus) and i % 12 == 4:
+            # classes whose names would coincide with the string-type names the module imports once date/time types are
+            # registered
+            reg_i = registry_dt
+            inputs = [("Root", [{"iso_date_string": {"a": 1}, "iso_time_strings": [{"b": 2}], "IsoDatetimeString": {"c": 3},
+                                "int_string": {"d": 4}, "day": "2018-12-31", "at": "12:30:00", "ts": "2018-12-31T10:00:00", "n": "12"}])]
+            cmps = []
+            job.update({"fw": rng.choice(["attrs", "dataclasses", "attrs", "pydantic"]), "postInit": False})
+            job.pop("renderFirst", None)
         try:
-            hit, skip = check_case(inputs, cmps, job, registry, check_types, fold_guard=True)
+            hit, skip = check_case(inputs, cmps, job, reg_i, check_types, fold_guard=True)
         except (ZeroDivisionError, stages.TooCostly):
             ctx.count("skip:zero-division")
             continue
@@ -222,7 +242,7 @@ def run_falsifier(ctx, check_types):
         ctx.count("fw:" + job["fw"])
         ctx.sample({"inputs": inputs, "job": job}, limit=2)
         if hit:
-            hit.update({"input": inputs, "job": job, "cmps": [stages.enc_cmp(c) for c in cmps]})
+            hit.update({"input": inputs, "job": job, "cmps": [stages.enc_cmp(c) for c in cmps], "datetime": reg_i is registry_dt})
             yield hit
     # labels must not survive from one generator object to the next: generations with and without transliteration alternate
     # (short-lived generator objects; CPython reuses their addresses)
@@ -281,8 +301,8 @@ def replay(ctx, hit):
                 return h
         return None
     try:
-        h, _ = check_case([tuple(x) for x in hit["input"]], cmps_from(hit["cmps"]), hit["job"], stages.make_registry(),
-                          CHECK_TYPES)
+        h, _ = check_case([tuple(x) for x in hit["input"]], cmps_from(hit["cmps"]), hit["job"],
+                          stages.make_registry(datetime=bool(hit.get("datetime"))), CHECK_TYPES)
     except stages.TooCostly:
         raise
     except Exception as e:  # noqa
